@@ -342,10 +342,26 @@ def c02(res, rng, tier):
             progs.append(pickle.dumps(n, pr)); progs.append(pickle.dumps(-n, pr))
     progs += [pickle.dumps("x" * 5000, 0), pickle.dumps(b"y" * 70000, 4), pickle.dumps(bytearray(b"z" * 300), 5),
               pickle.dumps(["é" * 300] * 3, 0), pickle._dumps({(1, "a"): [1.5, None]}, 0)]
+    # the picklers write list items / dict entries in batches of 1000 (APPENDS / SETITEMS onto a
+    # container that is no longer empty): sizes straddling one and two batches, by every pickler
+    batch = []
+    for n in (999, 1000, 1001, 1002, 2001, 2500):
+        batch.append((list(range(n)), range(0, 6), (pickle.dumps, pickle._dumps)))
+    batch.append(([list(range(1003)), "tail", list(range(1001))], range(0, 6), (pickle.dumps, pickle._dumps)))
+    # dicts: the Dict model scans with exact arithmetic (quadratic), so fewer of them
+    for n in ((1001,) if q else (1000, 1001, 2001)):
+        batch.append(({i: str(i) for i in range(n)}, (0, 2, 4), (pickle.dumps,)))
+        batch.append(({i: None for i in range(n)}, (2,), (pickle._dumps,)))
+    for o, protos, dumpers in batch:
+        for proto in protos:
+            for dumper in dumpers:
+                p = dumper(o, proto)
+                if p not in origin:
+                    origin[p] = (proto, "batch"); progs.append(p)
     stats, lines, impl = compare_with_cpython(res, "C02", progs, "CPython-produced pickle")
     res.coverage.update({
         "evaluations": len(lines), "distinct_nontrivial": stats["compared"] + stats["map_key_errors"],
-        "rule": "Python objects over {None, bool, int incl. every LONG1 length / 2^31, 2^63 boundaries, float incl. random bit patterns, str over the adversarial alphabet, bytes, bytearray, list, tuple, dict with hashable (also tuple) keys}, nesting <= 4, DAG sharing of sub-objects, pickled by the C pickler, the pure-Python pickler and pickletools.optimize at protocols 0..5; decoded in 4 configs; default map mode must fail exactly for dicts with tuple keys; non-trivial = structurally compared cases + documented-error cases",
+        "rule": "Python objects over {None, bool, int incl. every LONG1 length / 2^31, 2^63 boundaries, float incl. random bit patterns, str over the adversarial alphabet, bytes, bytearray, list, tuple, dict with hashable (also tuple) keys}, nesting <= 4, DAG sharing of sub-objects, lists and dicts of 999..2500 items (the picklers' batches of 1000), pickled by the C pickler, the pure-Python pickler and pickletools.optimize at protocols 0..5; decoded in 4 configs; default map mode must fail exactly for dicts with tuple keys; non-trivial = structurally compared cases + documented-error cases",
         "programs": len(progs), "disagreements_checked": len(lines), "picklers": hist, "objects": nobj,
         "cpython_self_check_failures": bad_ref, **stats})
     res.samples = [{"pickle_hex": progs[i].hex()[:120], "impl": impl[4 * i][:160]} for i in range(0, len(progs), max(1, len(progs) // 6))]
